@@ -221,7 +221,12 @@ static int fs_lookup(const char *path)
 static void block_on(const char *what)
 {
   int t0 = K->now;
-  if (sk_cur != 0 || !sk_env_pull || !sk_env_pull()) {
+  if (sk_cur != 0) { /* the library's child-side code must never block */
+    K->hang = 1;
+    fprintf(stderr, "simk: child side blocks in %s\n", what);
+    __real__exit(3);
+  }
+  if (!sk_env_pull || !sk_env_pull()) {
     K->hang = 1;
     if (sk_on_hang) sk_on_hang(what);
     fprintf(stderr, "simk: HANG in %s\n", what);
